@@ -249,6 +249,69 @@ func (c *Ctx) ruleMergeTable(id string, d *dstate) {
 		if batch != nil {
 			hdr := batch.Header
 			opts = core.PathOpts{Start: hdr, Stop: func(b *ssa.BasicBlock) bool { return b == hdr }}
+			// iterations are independent: the local entry compared must not depend on a variable that outlives the
+			// iteration and is modified inside the loop (a scratch buffer reused from one entry to the next: whatever
+			// path skips its reset makes the next entry be compared with the previous entry's look-up)
+			carried := map[*ssa.Alloc]ssa.Instruction{}
+			for b := range batch.Blocks {
+				for _, in := range b.Instrs {
+					var addrs []ssa.Value
+					switch x := in.(type) {
+					case *ssa.Store:
+						addrs = append(addrs, x.Addr)
+					default:
+						if cl := core.CallOf(in); cl != nil {
+							for _, a := range cl.Common.Args {
+								if _, isPtr := a.Type().Underlying().(*types.Pointer); isPtr {
+									addrs = append(addrs, a)
+								}
+							}
+						}
+					}
+					for _, a := range addrs {
+						if al := cellOf(a); al != nil && al.Parent() == f && !batch.Blocks[al.Block()] {
+							if _, seen := carried[al]; !seen {
+								carried[al] = in
+							}
+						}
+					}
+				}
+			}
+			badIter := ""
+			for _, oc := range r.outdated {
+				if oc.Instr.Parent() != f || !batch.Blocks[oc.Instr.Block()] {
+					continue
+				}
+				for al, at := range carried {
+					al := al
+					// re-initialised before use in every iteration: a store to it that dominates the comparison and
+					// writes a value independent of its previous content (or the empty re-slice x[:0])
+					reinit := false
+					for b := range batch.Blocks {
+						for _, in := range b.Instrs {
+							st, ok := in.(*ssa.Store)
+							if !ok || cellOf(st.Addr) != al || !core.Dominates(st, oc.Instr) {
+								continue
+							}
+							if sl, ok := core.Strip(st.Val).(*ssa.Slice); ok && sl.High != nil {
+								if k, ok := sl.High.(*ssa.Const); ok && k.Value != nil && k.Int64() == 0 {
+									reinit = true
+								}
+							}
+							if !depReaches(st.Val, func(v ssa.Value) bool { return v == ssa.Value(al) }) {
+								reinit = true
+							}
+						}
+					}
+					if reinit {
+						continue
+					}
+					if depReaches(oc.Common.Args[0], func(v ssa.Value) bool { return v == ssa.Value(al) }) {
+						badIter = "the local entry compared at " + c.whereI(oc.Instr) + " depends on a variable declared outside the batch loop and modified inside it (" + c.whereI(at) + "): state is carried from one remote entry to the next"
+					}
+				}
+			}
+			ru.Check(badIter == "", key+"|iterations independent", c.where(f, f), fmt.Sprintf("%d variable(s) outlive an iteration, none reaches the local entry compared", len(carried)), badIter)
 		}
 		paths, err := c.pathsInlined(f, opts, isAny(d.isOutdated, d.isAdded, d.isRemoved), func(g *ssa.Function) bool { return c.writesStore(d, g, 2) })
 		if err != nil {
